@@ -96,16 +96,36 @@ def judge_trace(prop, verdict, name, decls, obs_paths, stats, want_eps=None):
 
 # ------------------------------------------------------------------ slices
 
+def shape_key(ad):
+    return (ad.get("ty", ""), ad["vmode"], tuple(s["k"] + ":" + s.get("fn", "") for s in ad["san"]),
+            tuple(r["k"] + ":" + r.get("fn", "") + ":" + r.get("sp", "") for r in ad["val"]), tuple(t for t in ad["traits"] if t in ("From", "TryFrom", "Eq", "Ord")))
+
+
 def sample_decls(adecls, n, rng, must=None):
-    """seeded sample of the TLC-enumerated declarations; `must(ad)` marks ones always taken."""
+    """seeded sample of the TLC-enumerated declarations, STRATIFIED by shape (sanitizer sequence, validator sequence,
+    validation mode, spellings): one declaration per shape in turn, so that rare shapes (three sanitizers with the
+    custom one in the middle, `finite` written last, ...) are replayed as reliably as common ones."""
     if n is None or n >= len(adecls):
         return list(adecls)
-    keep = [ad for ad in adecls if must and must(ad)]
-    rest = [ad for ad in adecls if not (must and must(ad))]
-    if len(keep) > n // 3:                      # the "always" class may take at most a third of the sample
-        keep = rng.sample(keep, n // 3)
-    k = max(0, n - len(keep))
-    return keep + rng.sample(rest, min(k, len(rest)))
+    groups = {}
+    for ad in adecls:
+        groups.setdefault(shape_key(ad), []).append(ad)
+    keys = sorted(groups, key=lambda k: json.dumps(k))
+    rng.shuffle(keys)
+    for k in keys:
+        rng.shuffle(groups[k])
+    out = []
+    while len(out) < n:
+        progressed = False
+        for k in keys:
+            if groups[k]:
+                out.append(groups[k].pop())
+                progressed = True
+                if len(out) >= n:
+                    break
+        if not progressed:
+            break
+    return out
 
 
 def instantiate_slice(fam, adecls, rng, prefix, lifts=1):
